@@ -196,7 +196,7 @@ func (w *Walker) correlatedConds(c *FCtx) []*Atom {
 	// a decision taken inside an unexported helper that this function calls (a "decide" function whose paths are
 	// correlated by one of its own tests) is a case split of the caller too: the helper's summary is then specialised
 	// to each case (context-sensitive summaries)
-	if !c.noCalleeSplits && len(res) < 3 {
+	if !c.noCalleeSplits && len(res) < 3 && os.Getenv("LH_NO_CALLEE_SPLITS") == "" {
 		seenKey := map[string]bool{}
 		for _, a := range res {
 			seenKey[a.Key()] = true
